@@ -76,6 +76,22 @@ def sequence_cases(draw):
     return dict(kind="sequence", runs=runs)
 
 
+def history_cases(tier):
+    """In-process history independence: a board requested after OTHER boards were generated in the same
+    process (same seed and sizes, a nearby probability, another max reward ...) must equal the board a fresh
+    interpreter produces for the same arguments."""
+    def gen():
+        k = 0
+        for seed, n in ((7, 20), (3, 6), (11, 40)) if tier == "quick" else ((7, 20), (3, 6), (11, 40), (5, 12), (9, 64), (2, 33)):
+            for p, q in ((0.30, 0.3099), (0.5, 0.504), (0.07, 0.0749), (0.3, 0.31)):
+                for fd in (False, True):
+                    k += 1
+                    if tier == "quick" and k % 3:
+                        continue
+                    yield dict(kind="history", seed=seed, length=n, width=n, first_p=p, p=q, max_reward=6, force_down=fd)
+    return gen
+
+
 def big_boards(tier):
     def gen():
         for (seed, n, p, fd) in ((1, 200, 0.3, False), (2, 200, 0.05, True), (3, 150, 0.9, False)):
@@ -117,6 +133,8 @@ def phases(tier):
     return [Phase("parameter-boundaries", enum=refusal_cases, exhaustive=True,
                   note="last refused / first accepted value of each of the eight range checks, far-out values, -0.0, inf, nan"),
             Phase("big-boards-frequency", enum=big_boards(tier)),
+            Phase("process-history-independence", enum=history_cases(tier),
+                  note="a request made after related requests in the same process vs. the same request in a fresh interpreter"),
             Phase("random-boards", strategy=board_cases, examples=(1500, 60000)),
             Phase("command-line-twice", strategy=cli_cases, examples=(150, 4000)),
             Phase("command-line-sequences-one-directory", strategy=sequence_cases, examples=(120, 4000),
@@ -281,7 +299,36 @@ def check_sequence(case, v):
             return
 
 
+def check_history(case, v):
+    import json
+    import subprocess
+    import sys
+    r = repo()
+    rg = r.roberta_generator
+    v.nontrivial = True
+    v.cls("history")
+    args = (case["seed"], case["length"], case["width"], case["p"], case["max_reward"], case["force_down"])
+    # related requests first, in this process
+    rg.gen_rnd_board(case["seed"], case["length"], case["width"], case["first_p"], case["max_reward"], case["force_down"])
+    rg.gen_rnd_board(case["seed"], case["length"], case["width"], case["first_p"], case["max_reward"] + 1, case["force_down"])
+    here = rg.gen_rnd_board(*args)
+    code = ("import sys, json; sys.path.insert(0, sys.argv[1]); import roberta_generator as rg; "
+            "a = json.loads(sys.argv[2]); print(json.dumps(rg.gen_rnd_board(*a)))")
+    p = subprocess.run([sys.executable, "-B", "-c", code, r.path, json.dumps(list(args))], capture_output=True, text=True,
+                       timeout=300, env={"PYTHONHASHSEED": "0", "PATH": "/usr/bin:/bin"})
+    if p.returncode != 0:
+        v.inconclusive = "fresh interpreter failed: " + p.stderr[-200:]
+        return
+    fresh = json.loads(p.stdout)
+    if [list(map(list, m)) for m in here] != fresh:
+        diff = sum(1 for a, b in zip(sum(here[2], []), sum(fresh[2], [])) if a != b)
+        v.fail("board-depends-on-process-history", f"gen_rnd_board{args} called after gen_rnd_board(..., "
+                                                   f"prob_loose_tile={case['first_p']}, ...) in the same process differs "
+                                                   f"from the same call in a fresh interpreter ({diff} loose flags differ)")
+
+
 def check_case(case):
     v = Verdict()
-    {"board": check_board, "cli": check_cli, "refuse": check_refuse, "sequence": check_sequence}[case["kind"]](case, v)
+    {"board": check_board, "cli": check_cli, "refuse": check_refuse, "sequence": check_sequence,
+     "history": check_history}[case["kind"]](case, v)
     return v
